@@ -8,7 +8,7 @@ Contract (from the property statement), for every structure and every visit prog
   default_deep_copy_equal          default callbacks: iso(root, remap(root))
   default_shares_no_mutable        ... and no dict/list/set of the result is an object of the input
   input_not_mutated                identity/value snapshot of the whole input graph unchanged after every call
-  self_referential_terminates      every call returns within the per-structure alarm (1 s for all calls on one structure)
+  self_referential_terminates      every call returns within the per-structure alarm (1 s of CPU time for all calls on one structure)
   research_paths_retrievable       get_path(root, p) is v for every (p, v) of research(root) but the root's own
                                    report ((None,), root), which is not a nested item
 Reference: refmodels/remap_ref.py (recursive, memoised on id, written from the statement).
@@ -304,7 +304,7 @@ def run():
     def fits(spec, env):
         return (len(spec) <= env[0] and all(len(sl) <= env[1] for _, sl in spec)
                 and sum(s[0] == 'L' for _, sl in spec for s in sl) <= env[2] and sum(len(sl) for _, sl in spec) <= env[3])
-    signal.signal(signal.SIGALRM, _on_alarm)
+    signal.signal(signal.SIGVTALRM, _on_alarm)    # CPU-time alarm: a stalled machine cannot fire it
     stats = dict(specs=0, built=0, unconstructible=0, cyclic=0, shared=0)
     for ei, (mn, width, ml, ms) in enumerate(envelopes):
         for spec in gen_specs(mn, width, ml, ms):
@@ -316,16 +316,17 @@ def run():
                 stats['unconstructible'] += 1
                 continue
             stats['built'] += 1
-            signal.setitimer(signal.ITIMER_REAL, 1.0)
+            signal.setitimer(signal.ITIMER_VIRTUAL, 1.0)
             try:
                 sc = check_structure(H, spec, root, stats['specs'], not T)
                 stats['cyclic'] += sc in ('cyclic structure', 'reference cycle passing through a tuple')
                 stats['shared'] += sc == 'shared sub-object'
             except Alarm:
                 H.fail('self_referential_terminates', 'remap', shape_class(root), spec_source(spec),
-                       'no result within 1 s', HDR + spec_source(spec) + 'remap(root)\n')
+                       'no result within 1 s of CPU time',
+                       HDR + spec_source(spec) + 'import signal\nsignal.alarm(5)\nremap(root)\nresearch(root)\n')
             finally:
-                signal.setitimer(signal.ITIMER_REAL, 0)
+                signal.setitimer(signal.ITIMER_VIRTUAL, 0)
             if stats['built'] % 256 == 0 and H.out_of_time(0.85 if not T else 0.72):
                 H.note_truncated('enumeration stopped by time budget in envelope %d (max_nodes=%d) after %d structures'
                                  % (ei, mn, stats['built']))
